@@ -4,7 +4,10 @@
 (*                                                                         *)
 (* A session is a sequence of steps over a database with configured        *)
 (* renderer classes: render an element or the database to SQL or DBML, or  *)
-(* detach an element (Database.delete).  A harness-defined PARTIAL custom  *)
+(* detach an element (Database.delete), or hand an element to            *)
+(* Database.add once more ("readd": refused for a member -- the project   *)
+(* replaces itself -- and attaching again what was detached).  A          *)
+(* harness-defined PARTIAL custom                                          *)
 (* renderer handles only some element types and tags its output.          *)
 (*   attached element (and every column of an attached table): the         *)
 (*       configured class renders it; a type the class has no handler for  *)
@@ -35,6 +38,7 @@ ElemsOf(m) ==
 StepOf(sd, j, m) ==
   LET el == Pick(sd, K(60 + j, 0, 1), ElemsOf(m)) IN
   IF el.k \in Detachable /\ Coin(sd, K(60 + j, 0, 2), 15) THEN [op |-> "detach", el |-> el, out |-> ""]
+  ELSE IF el.k \in Detachable /\ Coin(sd, K(60 + j, 0, 4), IF el.k = "project" THEN 45 ELSE 12) THEN [op |-> "readd", el |-> el, out |-> ""]
   \* table groups, the project and sticky notes exist in DBML only (they have no .sql)
   ELSE [op |-> "render", el |-> el,
         out |-> IF el.k \in {"group", "project", "sticky"} THEN "dbml" ELSE Pick(sd, K(60 + j, 0, 3), <<"sql", "dbml">>)]
@@ -44,8 +48,12 @@ TheModel16 == ParseDoc(TheDoc, WithProps)
 EmitSession == WellFormed(TheDoc) =>
   PrintT(<<"DOC", seed, ToJson([doc |-> TheDoc, model |-> TheModel16, sess |-> SessionOf(seed, TheModel16)])>>)
 
-\* detached elements after the first n steps
-DetachedAfter(sess, n) == {sess[j].el : j \in {x \in 1..n : sess[x].op = "detach"}}
+\* detached elements after the first n steps: the last detach / readd of an element decides (Database.add of a member is
+\* refused or, for the project, replaces it by itself: the element stays attached and nothing else changes)
+DetachedAfter(sess, n) ==
+  {el \in {sess[j].el : j \in 1..n} :
+     LET js == {x \in 1..n : sess[x].el = el /\ sess[x].op \in {"detach", "readd"}} IN
+     js # {} /\ sess[CHOOSE x \in js : \A y \in js : y <= x].op = "detach"}
 
 \* cfg = [sql |-> "default"/"custom", dbml |-> ...]
 ExpectedClass(cfg, sess, j) ==
@@ -58,5 +66,5 @@ ExpectedClass(cfg, sess, j) ==
 SameTextDue(sess, j1, j2) ==
   /\ j1 < j2 /\ sess[j1].op = "render" /\ sess[j2].op = "render"
   /\ sess[j1].el = sess[j2].el /\ sess[j1].out = sess[j2].out
-  /\ \A x \in j1..j2 : sess[x].op # "detach"
+  /\ \A x \in j1..j2 : sess[x].op = "render"
 =============================================================================
